@@ -489,7 +489,12 @@ def _simplify(t, assume, memo):
     if k in ("attr", "item"):
         return (k, s(t[1]), t[2])
     if k in ("binop", "cmp"):
-        return (k, t[1], s(t[2]), s(t[3]))
+        out = (k, t[1], s(t[2]), s(t[3]))
+        if k == "cmp" and out[2][0] == "const" and out[3][0] == "const":
+            v = truth(out, {})
+            if v is not None:
+                return ("const", v)
+        return out
     if k == "bool":
         parts = [s(x) for x in t[2]]
         kept = []
@@ -823,3 +828,23 @@ def last_piece(x, sep):
     if m[1] == "rpartition" and idx in (("const", 2), ("const", -1)):
         return m[2]
     return None
+
+
+def feasible(conds, assume):
+    """the path conditions do not contradict the assumed parameter values (a path recorded under `opt` is not taken with opt=False)"""
+    for c, pol in conds:
+        if c[0] == "raises":
+            continue
+        v = truth(c, assume)
+        if v is not None and bool(v) != bool(pol):
+            return False
+    return True
+
+
+def exception_path(conds):
+    """the path is taken only after an exception was caught (a `raises` marker holds, alone or inside a conjunction)"""
+    from . import pipeline as _P
+    for c, pol in conds:
+        if pol and any(isinstance(x, tuple) and x and x[0] == "raises" for x in _P.subterms(c)):
+            return True
+    return False
